@@ -391,7 +391,12 @@ def check(ctx):
     pops = [(fi, c, nm, r) for fi, c, nm, r in sites if nm in REMOVERS]
     marks = [(fi, c, nm, r) for fi, c, nm, r in sites if nm == "mark"]
     ctx.floor("R1", "pop sites", len(pops), 2)
-    allowed = {f"{BASE}.wait_for_response", f"{BASE}.consume", f"{UNHANDLED}.consume"}
+    # the three consumers, wherever the class hierarchy keeps their definitions (the base handler's own body, or a mixin
+    # it inherits them from): what runs as BASE.wait_for_response / BASE.consume / UNHANDLED.consume
+    Q_WAIT = repo.method(BASE, "wait_for_response").qual
+    Q_CONSUME = repo.method(BASE, "consume").qual
+    Q_DISCARD = repo.method(UNHANDLED, "consume").qual
+    allowed = {Q_WAIT, Q_CONSUME, Q_DISCARD}
     # a helper of a consumer is that consumer: a private method / module function every caller of which is an allowed
     # function (or such a helper) removes on its behalf
     from ..callgraph import callgraph as _cgf
@@ -408,7 +413,7 @@ def check(ctx):
             if fi_.qual not in allowed and fi_.name.startswith("_") and cs_ and cs_ <= allowed:
                 allowed.add(fi_.qual)
                 changed = True
-    helpers_of_discard = {q for q in allowed if any(fi_.qual == q and (_callers.get(id(fi_.node), set()) & {f"{UNHANDLED}.consume"}) for fi_, c_, nm_, r_ in pops)}
+    helpers_of_discard = {q for q in allowed if any(fi_.qual == q and (_callers.get(id(fi_.node), set()) & {Q_DISCARD}) for fi_, c_, nm_, r_ in pops)}
     for fi, c, nm, r in pops:
         ctx.ob("R2", f"{fi.qual}::{nm}", fi.qual in allowed,
                f"{fi.qual} removes from a protocol queue ({r}.{nm}()); only {sorted(allowed)} may", loc(fi, c))
@@ -416,12 +421,12 @@ def check(ctx):
             ctx.ob("R2", f"{fi.qual}::{nm}::via-pop", False,
                    f"{fi.qual} removes with {nm}() which bypasses AsyncPeekableQueue.pop (mark not cleared)", loc(fi, c))
             continue
-        if fi.qual in allowed and fi.qual in (f"{BASE}.wait_for_response", f"{BASE}.consume", f"{UNHANDLED}.consume"):
+        if fi.qual in allowed and fi.qual in (Q_WAIT, Q_CONSUME, Q_DISCARD):
             check_pop_site(ctx, repo, fi, c, discard=(fi.cls.short == UNHANDLED))
         elif fi.qual in allowed:
             ctx.note(f"{fi.qual}: removes on behalf of its caller(s) - the peek / accept / pop pairing of that path is decided by the interpreted consumer, wait and discard models")
     for fi, c, nm, r in marks:
-        ctx.ob("R2", f"{fi.qual}::mark", fi.qual == f"{UNHANDLED}.consume",
+        ctx.ob("R2", f"{fi.qual}::mark", fi.qual == Q_DISCARD,
                f"{fi.qual} marks the queue; only the discard consumer may", loc(fi, c))
     if not marks:
         ctx.note("no `<queue>.mark()` call site found (a bound method, a helper): the mark protocol is decided by the queue model (R3) and the discard-consumer model (R7) only")
@@ -511,7 +516,7 @@ def check(ctx):
     # at a time, yields on every pass, goes on while not flagged for removal and ends once flagged
     from .c05 import consume_pairing
     consume_pairing(ctx, repo, "R5", rule_exit="R5")
-    for qual in (f"{UNHANDLED}.consume",):
+    for qual in (Q_DISCARD,):
         f2 = repo.func(qual)
         g2 = cfg_of(f2)
         heads = {h for _, h in g2.back_edges}
